@@ -19,10 +19,16 @@
 //!   accept <j> <w> | decline <j> <w>   on the welcome stored under rumor id of w
 //!   commit <i> <g>                  self_update + merge by i → `ev=..`
 //!   rename <i> <g> <name>           update_group_data(name) + merge by i → `ev=..`
+//!   rotate <i> <g> <n>              update_group_data(nostr_group_id := 5A…|n) + merge by i → `ev=.. nid=..`
+//!   rotonto <i> <g> <g2>            the same, ONTO the nostr group id group g2 currently has (as its last committer
+//!                                   stored it): the hostile inviter's move (the id is public, it is the `h` tag)
 //!   remove <i> <g> <j>              remove_members + merge → `ev=..`
 //!   deliver <j> <ev>                process_message
 //!   probe <j> <g> <i>               i sends a fresh message in g, j processes it → `app|…`
 //!   view <j>                        nothing, just the view
+//! Nostr group ids are shown as small numbers assigned by first occurrence (`I<n>` in a group record, `i<n>` in a
+//! stored welcome, `nid=<n>` in the result of group / invite / commit / rename / remove / rotate / rotonto / forge:
+//! the id in force for the acting client after the operation).
 
 use std::collections::{BTreeSet, HashMap};
 use std::io::{self, BufRead, Write};
@@ -32,6 +38,7 @@ use mdk_core::MDK;
 use mdk_core::groups::{NostrGroupConfigData, NostrGroupDataUpdate};
 use mdk_core::messages::MessageProcessingResult;
 use mdk_storage_traits::groups::types::{GroupState, SelfUpdateState};
+use mdk_storage_traits::groups::GroupStorage;
 use mdk_storage_traits::welcomes::WelcomeStorage;
 use mdk_storage_traits::welcomes::types::{ProcessedWelcomeState, WelcomeState};
 use mdk_storage_traits::{GroupId, MdkStorageProvider};
@@ -99,6 +106,10 @@ pub struct Inv {
     msg_seq: u64,
     /// C03: every application message ever sent: (content token, event index)
     sent: Vec<(u64, usize)>,
+    /// nostr group ids in order of first occurrence
+    nids: Vec<[u8; 32]>,
+    /// g -> the nostr group id its last committer stored after its last operation
+    head_nid: HashMap<usize, [u8; 32]>,
 }
 
 impl Inv {
@@ -112,7 +123,7 @@ impl Inv {
             w.exec(&["kp", &i.to_string()]);
             w.exec(&["kp", &i.to_string()]);
         }
-        Inv { w, groups: vec![], welcomes: vec![], used_wrappers: vec![], held: HashMap::new(), rumor_ids: HashMap::new(), msg_seq: 0, sent: vec![] }
+        Inv { w, groups: vec![], welcomes: vec![], used_wrappers: vec![], held: HashMap::new(), rumor_ids: HashMap::new(), msg_seq: 0, sent: vec![], nids: vec![], head_nid: HashMap::new() }
     }
 
     fn gnum(&mut self, g: &GroupId) -> usize {
@@ -126,6 +137,27 @@ impl Inv {
     fn rnum(&mut self, id: &EventId) -> usize {
         let n = self.rumor_ids.len();
         *self.rumor_ids.entry(*id).or_insert(n)
+    }
+
+    fn nnum(&mut self, id: &[u8; 32]) -> usize {
+        if let Some(p) = self.nids.iter().position(|x| x == id) {
+            return p;
+        }
+        self.nids.push(*id);
+        self.nids.len() - 1
+    }
+
+    /// the nostr group id client i has stored for group g, remembered as the group's id in force; ` nid=<n>`
+    fn note_nid(&mut self, i: usize, g: usize) -> String {
+        let gid = self.groups[g].clone();
+        let id = self.with(i, |_, mdk| with_mdk!(mdk, |m| m.get_group(&gid).ok().flatten().map(|r| r.nostr_group_id)));
+        match id {
+            Some(id) => {
+                self.head_nid.insert(g, id);
+                format!(" nid={}", self.nnum(&id))
+            }
+            None => String::new(),
+        }
     }
 
     fn token(&mut self, auth: Vec<u8>) -> usize {
@@ -247,8 +279,16 @@ impl Inv {
                                 r.admin_pubkeys.iter().map(|p| pks.iter().position(|x| x == p).map(|i| i.to_string()).unwrap_or("x".into())).collect();
                             let relays: BTreeSet<u64> = m.get_relays(gid).map(|s| s.iter().map(relay_num).collect()).unwrap_or_default();
                             let nmsgs = m.get_messages(gid, None).map(|l| l.len() as i64).unwrap_or(-1);
+                            let nid = me.nnum(&r.nostr_group_id);
+                            // routing: the record the store answers for this nostr group id
+                            let routed = match m.provider.storage().find_group_by_nostr_group_id(&r.nostr_group_id) {
+                                Ok(Some(x)) if x.mls_group_id == *gid => "",
+                                Ok(Some(_)) => "!other",
+                                Ok(None) => "!none",
+                                Err(_) => "!err",
+                            };
                             parts.push(format!(
-                                "G{g}:{st}:E{}:{mls}:SU{su}:N{}:D{}:A{}:R[{}]:L{}:X{nmsgs}",
+                                "G{g}:{st}:E{}:{mls}:SU{su}:N{}:D{}:A{}:R[{}]:L{}:X{nmsgs}:I{nid}{routed}",
                                 r.epoch,
                                 r.name.len(),
                                 r.description.len(),
@@ -271,7 +311,8 @@ impl Inv {
                             WelcomeState::Ignored => "g",
                         };
                         let g = groups.iter().position(|x| *x == sw.mls_group_id).map(|x| x.to_string()).unwrap_or("?".into());
-                        parts.push(format!("W{n}:{st}:{}:g{g}:m{}", wrapper_name(&sw.wrapper_event_id), sw.member_count));
+                        let wn = me.nnum(&sw.nostr_group_id);
+                        parts.push(format!("W{n}:{st}:{}:g{g}:m{}:i{wn}", wrapper_name(&sw.wrapper_event_id), sw.member_count));
                     }
                 }
                 let _ = (nw, &rumor_ids);
@@ -307,6 +348,7 @@ impl Inv {
         let bad = match t[0] {
             "process" | "accept" | "decline" => u(t[2]) as usize >= self.welcomes.len(),
             "invite" | "commit" | "rename" | "remove" | "probe" | "send" | "rotate" => u(t[2]) as usize >= self.groups.len(),
+            "rotonto" => u(t[2]) as usize >= self.groups.len() || !self.head_nid.contains_key(&(u(t[3]) as usize)),
             "forge" => u(t[2]) as usize >= self.groups.len() || u(t[4]) as usize >= self.groups.len(),
             "deliver" => u(t[2]) as usize >= self.w.events.len(),
             _ => false,
@@ -329,15 +371,17 @@ impl Inv {
                         let ws: Vec<String> = res.welcome_rumors.into_iter().map(|r| self.push_welcome(r).to_string()).collect();
                         let mv = self.mls_view(i, g);
                         let inn = self.members_in(i, g);
-                        format!("ok g={g} w={} {} {inn}", ws.join(","), mv.map(|(e, t, m)| format!("epoch={e} tok={t} members={m}")).unwrap_or_default())
+                        let nid = self.note_nid(i, g);
+                        format!("ok g={g} w={} {} {inn}{nid}", ws.join(","), mv.map(|(e, t, m)| format!("epoch={e} tok={t} members={m}")).unwrap_or_default())
                     }
                     Err(e) => err_kind(&e),
                 }
             }
-            "invite" | "commit" | "rename" | "remove" | "rotate" => {
+            "invite" | "commit" | "rename" | "remove" | "rotate" | "rotonto" => {
                 let i = u(t[1]) as usize;
                 let g = u(t[2]) as usize;
                 let gid = self.groups[g].clone();
+                let onto: [u8; 32] = if t[0] == "rotonto" { self.head_nid[&(u(t[3]) as usize)] } else { [0u8; 32] };
                 let kps: Vec<Event> = if t[0] == "invite" { t[3].split(',').map(|k| self.w.kps[u(k) as usize].1.clone()).collect() } else { vec![] };
                 let pks: Vec<PublicKey> = if t[0] == "remove" { t[3].split(',').map(|j| self.w.clients[u(j) as usize].keys.public_key()).collect() } else { vec![] };
                 let name = if t[0] == "rename" { "n".repeat(u(t[3]) as usize) } else { String::new() };
@@ -352,6 +396,7 @@ impl Inv {
                                 b[24..].copy_from_slice(&u(t[3]).to_be_bytes());
                                 m.update_group_data(&gid, NostrGroupDataUpdate::new().nostr_group_id(b))
                             }
+                            "rotonto" => m.update_group_data(&gid, NostrGroupDataUpdate::new().nostr_group_id(onto)),
                             _ => m.remove_members(&gid, &pks),
                         };
                         match r {
@@ -366,7 +411,8 @@ impl Inv {
                         let ws: Vec<String> = res.welcome_rumors.unwrap_or_default().into_iter().map(|r| self.push_welcome(r).to_string()).collect();
                         let mv = self.mls_view(i, g);
                         let inn = self.members_in(i, g);
-                        format!("ok ev={ev} w={} {} {inn}", if ws.is_empty() { "-".into() } else { ws.join(",") }, mv.map(|(e, t, m)| format!("epoch={e} tok={t} members={m}")).unwrap_or_default())
+                        let nid = self.note_nid(i, g);
+                        format!("ok ev={ev} w={} {} {inn}{nid}", if ws.is_empty() { "-".into() } else { ws.join(",") }, mv.map(|(e, t, m)| format!("epoch={e} tok={t} members={m}")).unwrap_or_default())
                     }
                     Err(e) => err_kind(&e),
                 }
@@ -415,7 +461,8 @@ impl Inv {
                     Ok((rumor, auth, epoch, members)) => {
                         let w = self.push_welcome(rumor);
                         let tok = self.token(auth);
-                        format!("ok w={w} epoch={epoch} tok={tok} members={members}")
+                        let nid = self.note_nid(i, u(t[4]) as usize);
+                        format!("ok w={w} epoch={epoch} tok={tok} members={members}{nid}")
                     }
                 }
             }
